@@ -36,6 +36,17 @@ CHECKS = {
         ref="DESIGN.md 6/C06",
         note=NOTE + "theorems hold under the complement of the kernels' own guards.",
         technique="Lean 4 proof (vector identities + induction over elements) tied by concolic tracing of the NumPy kernels and differential driver"),
+    "C13": dict(
+        text="Theorems for every triangle / mesh: Heron's tria_areas equals half the cross-product length (so area = sum of the FEM element "
+             "areas), the volume guards (0 for open meshes, ValueError for closed unoriented, divergence-theorem sum otherwise), the sum "
+             "flips sign with orientation and scales with s^3, normals are unit, orthogonal and follow the winding, qualities lie in (0,1] "
+             "with 1 exactly for equilateral triangles (Weitzenboeck), areas scale with s^2 and qualities are invariant under every "
+             "similarity (isometries characterised by preserved dot products; matrices with orthonormal columns, translations, scalings "
+             "proved to be such). tria_areas/area/volume/tria_normals/tria_qualities re-traced from source and bridged; all other "
+             "measures compared differentially.",
+        ref="DESIGN.md 6/C13",
+        note=NOTE + "vertex_areas, vertex_normals, avg_edge_length, centroid, normalize_, normal_offset_ are tied by the differential check only.",
+        technique="Lean 4 proof (real-algebra identities/inequalities) tied by tracing of the NumPy kernels on a symbolic closed mesh and differential driver"),
 }
 
 NOT_YET = {}
